@@ -871,4 +871,134 @@ theorem output_length (P : XzParse) : P.output.length = (P.blocks.map (fun b => 
   unfold XzParse.output
   simp [List.length_flatten, List.map_map, Function.comp_def]
 
+/-! ### member selection: the first selected member decides -/
+
+/-- `decrunch_zip` skips this central-directory record -/
+def zipSkips (env : ZipEnv) (f : Bytes) (p : Nat) : Bool :=
+  zipIsDir f p || !zipSupported f p || env.excl (zipName f p)
+
+theorem zipSelect_first (env : ZipEnv) (f : Bytes) (pre post : List Nat) (p : Nat)
+    (hpre : ∀ q ∈ pre, zipSkips env f q = true) (hp : zipSkips env f p = false) :
+    zipSelect env f (pre ++ p :: post) =
+      (match zipStat f p with
+       | none => none
+       | some (st, lho) => some (p, st, lho)) := by
+  induction pre with
+  | nil =>
+    simp only [List.nil_append]
+    unfold zipSelect
+    unfold zipSkips at hp
+    simp only [hp, Bool.false_eq_true, if_false]
+    cases zipStat f p with
+    | none => rfl
+    | some x => rfl
+  | cons a rest ih =>
+    simp only [List.cons_append]
+    unfold zipSelect
+    have ha := hpre a (by simp)
+    unfold zipSkips at ha
+    simp only [ha, if_true]
+    exact ih (fun q hq => hpre q (List.mem_cons_of_mem _ hq))
+
+theorem zipDepack_first (env : ZipEnv) (f : Bytes) (pre post : List Nat) (p : Nat)
+    (ho : zipOpen f = some (pre ++ p :: post))
+    (hpre : ∀ q ∈ pre, zipSkips env f q = true) (hp : zipSkips env f p = false) :
+    zipDepack env f =
+      (match zipStat f p with
+       | none => none
+       | some (st, lho) => zipExtract env.inflate (env.junk st.uncompSize) st (zipTail f st lho)) := by
+  unfold zipDepack
+  simp only [ho, zipSelect_first env f pre post p hpre hp]
+  cases zipStat f p with
+  | none => rfl
+  | some x => obtain ⟨st, lho⟩ := x; rfl
+
+/-- the ARC entry at `pos` is one `arc_read` tries to extract (not end marker, not a directory, not skipped) -/
+structure ArcSelected (env : ArcEnv) (f : Bytes) (pos : Nat) : Prop where
+  fits2 : pos + 2 ≤ f.length
+  magic : u8 f pos = 0x1a
+  hlen : 2 < arcHeaderLength (u8 f (pos + 1))
+  fitsH : pos + arcHeaderLength (u8 f (pos + 1)) ≤ f.length
+  notDir : (u8 f (pos + 1) == 30 || (u8 f (pos + 1) == 0x82 &&
+      (if arcIsSpark (u8 f (pos + 1)) then le32 f (pos + arcHeaderLength (u8 f (pos + 1)) - 12) else 0) / 256 == 0xfffddc)) = false
+  taken : (!arcSupported (u8 f (pos + 1)) || le32 f (pos + 15) > f.length ||
+      (if arcIsPacked (u8 f (pos + 1)) then le32 f (pos + 25) else le32 f (pos + 15)) > env.limit ||
+      env.excl (cstr (slice f (pos + 2) 12))) = false
+
+/-- extraction + CRC-16 verdict for the entry at `pos` -/
+def arcExtractAt (env : ArcEnv) (f : Bytes) (pos : Nat) : Option Bytes :=
+  let method := u8 f (pos + 1)
+  let hlen := arcHeaderLength method
+  let csize := le32 f (pos + 15)
+  let usize := if arcIsPacked method then le32 f (pos + 25) else csize
+  if f.length < pos + hlen + csize then none else
+  let inp := slice f (pos + hlen) csize
+  match (if arcIsPacked method then env.unpack method 0 inp usize else some inp) with
+  | none => none
+  | some out => if crc16Gate out (le16 f (pos + 23)) then some out else none
+
+theorem arcLoop_selected (env : ArcEnv) (f : Bytes) (fuel pos level : Nat) (h : ArcSelected env f pos) :
+    arcLoop env f (fuel + 1) pos level = arcExtractAt env f pos := by
+  obtain ⟨h1, h2, h3, h4, h5, h6⟩ := h
+  unfold arcLoop arcExtractAt
+  simp only []
+  have e1 : ¬ f.length < pos + 2 := by omega
+  have e3 : ¬ arcHeaderLength (u8 f (pos + 1)) ≤ 2 := by omega
+  have e4 : ¬ f.length < pos + arcHeaderLength (u8 f (pos + 1)) := by omega
+  simp only [e1, h2, e3, e4, h5, h6, if_false, ne_eq, not_true_eq_false, Bool.false_eq_true]
+  split
+  · rfl
+  · split <;> (rename_i heq; simp only [heq])
+
+/-- the ArcFS entry at `pos` is one `arcfs_read` tries to extract -/
+structure ArcfsSelected (env : ArcEnv) (f : Bytes) (dofs pos : Nat) : Prop where
+  fits : pos + 36 ≤ f.length
+  notEnd : ((u8 f pos &&& 0x7f) == 0) = false
+  notDir : ((u8 f pos &&& 0x7f) == 1 || u8 f (pos + 35) / 128 == 1) = false
+  inData : ¬ (le32 f (pos + 32) % 2 ^ 31 ≥ f.length - dofs)
+  csize : ¬ ((if (u8 f pos &&& 0x7f) == 2 then le32 f (pos + 12) else le32 f (pos + 28)) >
+              f.length - (dofs + le32 f (pos + 32) % 2 ^ 31))
+  usize : ¬ (le32 f (pos + 12) > env.limit)
+  supported : arcSupported (u8 f pos &&& 0x7f) = true
+  notExcl : env.excl (cstr (slice f (pos + 1) 11)) = false
+
+def arcfsExtractAt (env : ArcEnv) (f : Bytes) (dofs pos : Nat) : Option Bytes :=
+  let method := u8 f pos &&& 0x7f
+  let usize := le32 f (pos + 12)
+  let csize := if method == 2 then usize else le32 f (pos + 28)
+  let inp := slice f (dofs + le32 f (pos + 32) % 2 ^ 31) csize
+  match (if method != 2 then env.unpack method (u8 f (pos + 25)) inp usize else some inp) with
+  | none => none
+  | some out => if arcfsGate out (le16 f (pos + 26)) then some out else none
+
+theorem arcfsLoop_selected (env : ArcEnv) (f : Bytes) (dofs n pos : Nat) (h : ArcfsSelected env f dofs pos) :
+    arcfsLoop env f dofs (n + 1) pos = arcfsExtractAt env f dofs pos := by
+  obtain ⟨h1, h2, h3, h4, h5, h6, h7, h8⟩ := h
+  unfold arcfsLoop arcfsExtractAt
+  simp only []
+  have e1 : ¬ f.length < pos + 36 := by omega
+  simp only [e1, h2, h3, h4, h5, h6, h7, h8, if_false, Bool.false_eq_true, Bool.not_true]
+  split <;> (rename_i heq; simp only [heq])
+
+/-- position of the data of the LZX entry at `pos` -/
+def lzxDataPos (f : Bytes) (pos : Nat) : Nat := pos + 31 + u8 f (pos + 30) + u8 f (pos + 14)
+
+/-- the entry at `pos` with merge state `mg` as `lzx_check_entry` sees it -/
+def lzxEntryCheck (env : LzxEnv) (f : Bytes) (pos : Nat) (mg : LzxMerge) : LzxMerge × Bool :=
+  lzxCheckEntry env.limit mg (lzxEntryBad env f pos) (le32 f (pos + 2)) (le32 f (pos + 6)) (u8 f (pos + 11))
+    (u8 f (pos + 12)) (le32 f (pos + 22))
+
+theorem lzxLoop_selected (env : LzxEnv) (f : Bytes) (fuel pos : Nat) (mg : LzxMerge)
+    (h1 : pos + 31 ≤ f.length) (h2 : lzxDataPos f pos ≤ f.length) (h3 : (lzxEntryCheck env f pos mg).2 = true) :
+    lzxLoop env f (fuel + 1) pos mg =
+      lzxExtract env f (lzxDataPos f pos) (le32 f (pos + 6)) (u8 f (pos + 11)) (lzxEntryCheck env f pos mg).1 := by
+  unfold lzxLoop
+  unfold lzxDataPos at h2
+  unfold lzxEntryCheck at h3
+  simp only []
+  have e1 : ¬ f.length < pos + 31 := by omega
+  have e2 : ¬ f.length < pos + 31 + u8 f (pos + 30) + u8 f (pos + 14) := by omega
+  simp only [e1, e2, h3, if_false, if_true]
+  rfl
+
 end Xmp.Gates
